@@ -963,6 +963,11 @@ class AdapterRegistry(BaseAdapterRegistry):
 
         super()._setBases(bases)
 
+        # Our resolution order is part of the resolution order of every
+        # registry below us, so they have to recompute theirs.
+        for sub in tuple(self._v_subregistries.keys()):
+            sub._setBases(sub.__bases__)
+
     def changed(self, originally_changed):
         super().changed(originally_changed)
 
@@ -971,7 +976,14 @@ class AdapterRegistry(BaseAdapterRegistry):
 
 
 class VerifyingAdapterLookup(AdapterLookupBase, VerifyingBase):
-    pass
+
+    def changed(self, originally_changed):
+        # Verifying registries are not told when the ``__bases__`` of a
+        # registry above them change, so whenever anything may have changed
+        # the resolution order has to be computed again as well.
+        registry = self._registry
+        registry.ro = ro.ro(registry)
+        super().changed(originally_changed)
 
 
 @implementer(IAdapterRegistry)
